@@ -34,6 +34,10 @@ pub enum Incoming {
     DuplicatedSignature,
     WrongKeys,
     Older,
+    /// genuine, correctly signed and newer, but the holder lists a target outside the paths the
+    /// role was delegated: the owner's editor may refuse it (at incorporation or at signing); if it
+    /// signs and writes, the client must be able to load the result
+    OutOfPath,
 }
 
 #[derive(Clone, Debug, Serialize, Deserialize)]
@@ -117,7 +121,7 @@ impl Check for C10 {
         "C10"
     }
     fn rule(&self) -> String {
-        "editing programs against tough's real editor: a delegation tree of depth <=3 (fan-out <=2..3) whose roles hold 0..40 targets (sizes 0..32 KiB, names with spaces, non-ASCII, sub-directories, so delegated files are smaller and larger than targets.json), 1..3 keys of mixed algorithms and thresholds 1..3 per role, noise operations (add-then-remove, clear, replace, version set twice), both consistent-snapshot settings, copy or symlink publication, final signing with adequate or inadequate key sets; optionally the cross-party flow with incoming metadata that is genuine, under-signed, carrying a duplicated signature, signed by the wrong keys, or older; non-trivial = sign and write succeeded for a tree with at least one delegated role, or a hostile incoming document was offered; distinct = distinct canonical trace".into()
+        "editing programs against tough's real editor: a delegation tree of depth <=3 (fan-out <=2..3) whose roles hold 0..40 targets (sizes 0..32 KiB, names with spaces, non-ASCII, sub-directories, so delegated files are smaller and larger than targets.json), 1..3 keys of mixed algorithms and thresholds 1..3 per role, noise operations (add-then-remove, clear, replace, version set twice), both consistent-snapshot settings, copy or symlink publication, final signing with adequate or inadequate key sets; optionally the cross-party flow with incoming metadata that is genuine, under-signed, carrying a duplicated signature, signed by the wrong keys, older, or genuine but listing a target outside the delegated paths; non-trivial = sign and write succeeded for a tree with at least one delegated role, or a hostile incoming document was offered; distinct = distinct canonical trace".into()
     }
     fn assumptions(&self) -> Vec<String> {
         vec![
@@ -136,10 +140,10 @@ impl Check for C10 {
         }
     }
     fn required_faults(&self, _t: Tier) -> Vec<&'static str> {
-        vec!["inadequate_key_set", "incoming_under_signed", "incoming_duplicated_signature", "incoming_wrong_keys", "incoming_older"]
+        vec!["inadequate_key_set", "incoming_under_signed", "incoming_duplicated_signature", "incoming_wrong_keys", "incoming_older", "incoming_out_of_path"]
     }
     fn required_probes(&self, _t: Tier) -> Vec<&'static str> {
-        vec!["written_repository_loaded_and_matches_model", "owner_update_session_matches_model", "all_targets_read_back", "delegated_role_larger_than_targets_json", "genuine_incoming_incorporated", "hostile_incoming_refused", "inadequate_keys_refused"]
+        vec!["written_repository_loaded_and_matches_model", "owner_update_session_matches_model", "all_targets_read_back", "delegated_role_larger_than_targets_json", "genuine_incoming_incorporated", "hostile_incoming_refused", "out_of_path_incoming_refused", "inadequate_keys_refused"]
     }
     fn generate(&self, seed: u64, _tier: Tier) -> Sc {
         let mut r = Rng::new(seed);
@@ -167,7 +171,7 @@ impl Check for C10 {
             let prefix = top.children[role].name.clone();
             Some(Cross {
                 role,
-                incoming: *r.pick(&[Incoming::Genuine, Incoming::Genuine, Incoming::UnderSigned, Incoming::DuplicatedSignature, Incoming::WrongKeys, Incoming::Older]),
+                incoming: *r.pick(&[Incoming::Genuine, Incoming::Genuine, Incoming::UnderSigned, Incoming::DuplicatedSignature, Incoming::WrongKeys, Incoming::Older, Incoming::OutOfPath]),
                 new_target: TargetM { name: format!("{prefix}-incoming.bin"), size: r.usize_below(500), seed: r.next_u64(), custom: 0 },
             })
         } else {
@@ -491,13 +495,22 @@ impl Check for C10 {
             // --- the role holder edits and signs its own role (real TargetsEditor)
             let holder: Result<(), String> = block_on(async {
                 let mut te = TargetsEditor::from_repo(repo.clone(), &role.name).map_err(|e| format!("from_repo: {}", variant(&e)))?;
-                te.add_target(cx.new_target.name.as_str(), cx.new_target.to_target()).map_err(|e| variant(&e))?;
+                let new_name = if cx.incoming == Incoming::OutOfPath { format!("outside-of-every-role/{}", cx.new_target.name) } else { cx.new_target.name.clone() };
+                te.add_target(new_name.as_str(), cx.new_target.to_target()).map_err(|e| variant(&e))?;
                 te.version(nz(role.version + 1)).expires(dt(T0 + 50 * DAY));
                 let signed = te.sign(&role.sources(w)).await.map_err(|e| format!("holder sign: {}", variant(&e)))?;
                 signed.write(&incoming_dir, false).await.map_err(|e| format!("holder write: {}", variant(&e)))?;
                 Ok(())
             });
             drain_blocking();
+            if cx.incoming == Incoming::OutOfPath && holder.is_err() {
+                // the holder's own editor noticed: nothing reaches the owner
+                o.probe("out_of_path_incoming_refused");
+                o.fault("incoming_out_of_path");
+                o.nontrivial = true;
+                world::set_clock(None);
+                return o;
+            }
             if let Err(e) = holder {
                 o.violate("role-holder-flow-refused", format!("TargetsEditor::from_repo/sign/write for role {}: {e}", role.name));
                 world::set_clock(None);
@@ -522,7 +535,7 @@ impl Check for C10 {
             let role_keys = role.key_objs(w);
             let mut hostile = true;
             let doc: Option<Doc> = match cx.incoming {
-                Incoming::Genuine => {
+                Incoming::Genuine | Incoming::OutOfPath => {
                     hostile = false;
                     None
                 }
@@ -560,6 +573,7 @@ impl Check for C10 {
                 Incoming::DuplicatedSignature if hostile => o.fault("incoming_duplicated_signature"),
                 Incoming::WrongKeys => o.fault("incoming_wrong_keys"),
                 Incoming::Older => o.fault("incoming_older"),
+                Incoming::OutOfPath => o.fault("incoming_out_of_path"),
                 _ => {}
             }
             // --- the owner incorporates it
@@ -574,7 +588,12 @@ impl Check for C10 {
                     return Ok(Err(variant(&e)));
                 }
                 ed.snapshot_version(nz(sc.snap_v + 1)).snapshot_expires(dt(T0 + 30 * DAY)).timestamp_version(nz(sc.ts_v + 1)).timestamp_expires(dt(T0 + 2 * DAY));
-                let signed = ed.sign(&top_sources(sc, SignWith::AllKeys)).await.map_err(|e| format!("owner sign: {}", variant(&e)))?;
+                let signed = match ed.sign(&top_sources(sc, SignWith::AllKeys)).await {
+                    Ok(s) => s,
+                    // refusing to sign a tree with an out-of-path target is a legitimate refusal
+                    Err(e) if cx.incoming == Incoming::OutOfPath => return Ok(Err(format!("sign: {}", variant(&e)))),
+                    Err(e) => return Err(format!("owner sign: {}", variant(&e))),
+                };
                 signed.write(&meta2).await.map_err(|e| format!("owner write: {}", variant(&e)))?;
                 Ok(Ok(()))
             });
@@ -582,6 +601,18 @@ impl Check for C10 {
             o.ev(format!("cross {:?} hostile={hostile} -> {owner:?}", cx.incoming));
             match owner {
                 Err(e) => o.violate("owner-flow-failed", e),
+                Ok(Err(_)) if cx.incoming == Incoming::OutOfPath => o.probe("out_of_path_incoming_refused"),
+                Ok(Ok(())) if cx.incoming == Incoming::OutOfPath => {
+                    // signing reported success: the written repository must load
+                    let shipped4 = shipped.clone();
+                    match block_on(async move { world::load(&shipped4, t4, None, world::LoadOpts::default()).await }) {
+                        Err(e) => o.violate(
+                            "signed-repository-with-out-of-path-target-does-not-load",
+                            format!("the owner's sign() and write() succeeded after incorporating role {} with a target outside its paths, but the client refuses the result: {}", role.name, variant(&e)),
+                        ),
+                        Ok(_) => o.probe("out_of_path_incoming_signed_and_loadable"),
+                    }
+                }
                 Ok(Err(e)) => {
                     if hostile {
                         o.probe("hostile_incoming_refused");
